@@ -48,7 +48,9 @@ const (
 type op struct {
 	Kind string `json:"k"` // est raw resume renew tick inval sweep
 	// est: Enc (true = AES session, false = plaintext session)
-	Enc bool `json:"enc,omitempty"`
+	Enc  bool `json:"enc,omitempty"`
+	Auth bool `json:"auth,omitempty"` // est: CLAIMTOBE authentication, the server maps the identity (PostAuthPolicy)
+	Opt  bool `json:"opt,omitempty"`  // resume: the serving config has Encryption/Integrity OPTIONAL instead of REQUIRED
 	// raw: key variant, where, policy
 	Key    string `json:"key,omitempty"`    // nil empty aes32 aesgcm32 aes16 blowfish32
 	Custom bool   `json:"custom,omitempty"` // store into the server's custom cache (raw); serve with a custom cache (resume)
@@ -83,6 +85,10 @@ type sess struct {
 	hasPol  bool
 	client  *security.SessionCache // client cache holding the client's copy (est only)
 	keyKind string
+	// est only: what the cache entry recorded, and the identity the client was told
+	storedUser  string
+	storedAuthd bool
+	clientUser  string
 }
 
 type world struct {
@@ -130,13 +136,21 @@ func ctxT() (context.Context, context.CancelFunc) {
 }
 
 func serverConfig(enc bool, custom *security.SessionCache) *security.SecurityConfig {
+	return serverConfigX(enc, custom, false, false)
+}
+
+// auth: CLAIMTOBE authentication required and the authenticated identity is mapped
+// (as server.Server does with an FQUMapper); optional: Encryption OPTIONAL instead of REQUIRED.
+func serverConfigX(enc bool, custom *security.SessionCache, auth, optional bool) *security.SecurityConfig {
 	e := security.SecurityRequired
 	cm := []security.CryptoMethod{security.CryptoAES}
 	if !enc {
 		e = security.SecurityNever
 		cm = nil // no cipher in common: no key exchange, the session is stored without a key
+	} else if optional {
+		e = security.SecurityOptional
 	}
-	return &security.SecurityConfig{
+	cfg := &security.SecurityConfig{
 		AuthMethods:     []security.AuthMethod{security.AuthNone},
 		Authentication:  security.SecurityOptional,
 		CryptoMethods:   cm,
@@ -146,6 +160,18 @@ func serverConfig(enc bool, custom *security.SessionCache) *security.SecurityCon
 		SessionLease:    sessLease,
 		SessionCache:    custom,
 	}
+	if auth {
+		cfg.AuthMethods = []security.AuthMethod{security.AuthClaimToBe}
+		cfg.Authentication = security.SecurityRequired
+		cfg.TrustDomain = "verif.pool"
+		cfg.PostAuthPolicy = func(authUser, peerAddr string, authenticated, encrypted bool) (string, []int) {
+			if authUser == "" {
+				return "", nil
+			}
+			return "mapped-" + authUser + "@verif.pool", nil
+		}
+	}
+	return cfg
 }
 
 // what the server end observed
@@ -378,16 +404,21 @@ func (w *world) cacheOf(s *sess) *security.SessionCache {
 }
 
 // establish by a real full handshake; returns the new session
-func (w *world) establish(enc bool) *sess {
+func (w *world) establish(enc, authn bool) *sess {
 	cc, sc := net.Pipe()
 	ch := make(chan srvObs, 1)
-	go func() { ch <- serve(sc, serverConfig(enc, w.custom), clientAddr) }()
+	go func() { ch <- serve(sc, serverConfigX(enc, w.custom, authn, false), clientAddr) }()
 	ccache := security.NewSessionCache()
 	st := stream.NewStream(cc)
 	cfg := &security.SecurityConfig{
 		AuthMethods: []security.AuthMethod{security.AuthNone}, Authentication: security.SecurityOptional,
 		CryptoMethods: []security.CryptoMethod{security.CryptoAES}, Encryption: security.SecurityPreferred, Integrity: security.SecurityOptional,
 		Command: 421, PeerName: srvName, SessionCache: ccache,
+	}
+	if authn {
+		cfg.AuthMethods = []security.AuthMethod{security.AuthClaimToBe}
+		cfg.Authentication = security.SecurityRequired
+		cfg.TrustDomain = "verif.pool"
 	}
 	auth := security.NewAuthenticator(cfg, st)
 	ctx, cancel := ctxT()
@@ -411,9 +442,13 @@ func (w *world) establish(enc bool) *sess {
 		s.key, s.proto = ki.Data, ki.Protocol
 	}
 	s.usable = s.key != nil && len(s.key) == 32 && (s.proto == "AES" || s.proto == "AESGCM")
+	// the identity and authentication status the ORIGINAL handshake established on the server
+	// (its negotiation result), not what happens to be in the cache entry
+	s.user, s.authd = so.user, so.authd
+	s.clientUser = neg.User
 	if pol := e.Policy(); pol != nil {
-		s.authd, _ = pol.EvaluateAttrBool("Authenticated")
-		s.user, _ = pol.EvaluateAttrString("User")
+		s.storedAuthd, _ = pol.EvaluateAttrBool("Authenticated")
+		s.storedUser, _ = pol.EvaluateAttrString("User")
 		s.valid, _ = pol.EvaluateAttrString("ValidCommands")
 	}
 	s.keyKind = map[bool]string{true: "aes32", false: "nil"}[s.key != nil]
@@ -434,6 +469,8 @@ func (w *world) storeRaw(o op, n int) *sess {
 		ki = &security.KeyInfo{Data: detKey(n, 0)[:16], Protocol: "AES"}
 	case "blowfish32":
 		ki = &security.KeyInfo{Data: detKey(n, 0), Protocol: "BLOWFISH"}
+	case "noproto32": // key bytes without a cipher name
+		ki = &security.KeyInfo{Data: detKey(n, 0), Protocol: ""}
 	}
 	if ki != nil {
 		s.key, s.proto = ki.Data, ki.Protocol
@@ -536,7 +573,7 @@ func runHistory(h history) runOut {
 		var term string
 		switch o.Kind {
 		case "est":
-			s := w.establish(o.Enc)
+			s := w.establish(o.Enc, o.Auth)
 			w.sess = append(w.sess, s)
 			if s == nil {
 				fail("establish-failed", "%s: full handshake against the honest server failed", what)
@@ -545,6 +582,15 @@ func runHistory(h history) runOut {
 			out.checks++
 			if o.Enc != (s.key != nil) {
 				fail("stored-key-mismatch", "%s: encrypted=%v session stored with key present=%v", what, o.Enc, s.key != nil)
+			}
+			if o.Auth && (!s.authd || !strings.HasPrefix(s.user, "mapped-")) {
+				fail("establish-failed", "%s: CLAIMTOBE handshake with identity mapping established user=%q authenticated=%v", what, s.user, s.authd)
+			}
+			if s.storedUser != s.user || s.storedAuthd != s.authd {
+				fail("stored-identity-differs", "%s: the handshake established user=%q authenticated=%v but the session was cached with user=%q authenticated=%v", what, s.user, s.authd, s.storedUser, s.storedAuthd)
+			}
+			if o.Auth {
+				out.counts["est-authenticated-mapped"]++
 			}
 			term = fmt.Sprintf("YStore n%d false %s %s %s %s z%d z%d", len(w.sess), keyTerm(s), core.Bool(s.authd),
 				core.Opt(s.user != "", hexs(s.user)), core.Opt(s.valid != "", hexs(s.valid)), sessDuration, sessLease)
@@ -641,7 +687,7 @@ func runHistory(h history) runOut {
 			}
 			cc, sc := net.Pipe()
 			ch := make(chan srvObs, 1)
-			go func() { ch <- serve(sc, serverConfig(true, w.custom), peer) }()
+			go func() { ch <- serve(sc, serverConfigX(true, w.custom, false, o.Opt), peer) }()
 			var ro reqObs
 			want := o.Want
 			cmd := o.Cmd
@@ -727,6 +773,9 @@ func runHistory(h history) runOut {
 			if o.Req == "legit" && so.ok {
 				if !bytes.Equal(ro.clientKey, so.streamKey) {
 					fail("keys-differ", "%s: client and server streams hold different keys after resumption", what)
+				}
+				if target != nil && ro.resumed && ro.clientUser != target.clientUser {
+					fail("identity-not-restored", "%s: client resumed with user=%q, the original handshake told it %q", what, ro.clientUser, target.clientUser)
 				}
 			}
 			rep := map[string]string{"none": "NoReply", "authorized": "(ReplyAuthorized [])", "sidnotfound": "ReplySidNotFound", "other": "NoReply", "broken": "NoReply"}[ro.reply]
@@ -875,18 +924,19 @@ func runReplay(rc replayCase) (accepted bool, detail string, recLen int, transcr
 
 func randOp(c *core.Ctx, nsess int, custom bool) op {
 	r := c.Rng
-	keys := []string{"nil", "nil", "empty", "aes32", "aesgcm32", "aes16", "blowfish32"}
+	keys := []string{"nil", "nil", "empty", "aes32", "aesgcm32", "aes16", "blowfish32", "noproto32", "noproto32"}
 	pols := []string{"none", "auth", "auth", "unauth"}
 	reqs := []string{"legit", "legit", "idonly", "idonly", "wrongkey", "rightkey", "unknown", "onechar"}
 	x := r.Intn(100)
 	switch {
 	case nsess == 0 || x < 14:
 		if r.Intn(2) == 0 {
-			return op{Kind: "est", Enc: r.Intn(3) > 0}
+			enc := r.Intn(3) > 0
+			return op{Kind: "est", Enc: enc, Auth: r.Intn(2) == 0}
 		}
 		return op{Kind: "raw", Key: keys[r.Intn(len(keys))], Custom: custom && r.Intn(2) == 0, Pol: pols[r.Intn(4)], NoExp: r.Intn(8) == 0}
 	case x < 62:
-		return op{Kind: "resume", N: 1 + r.Intn(nsess), Req: reqs[r.Intn(len(reqs))], Want: r.Intn(3) > 0, Other: r.Intn(4) == 0, Cmd: []int{421, 60007, 0}[r.Intn(3)]}
+		return op{Kind: "resume", N: 1 + r.Intn(nsess), Req: reqs[r.Intn(len(reqs))], Want: r.Intn(3) > 0, Other: r.Intn(4) == 0, Opt: r.Intn(2) == 0, Cmd: []int{421, 60007, 0}[r.Intn(3)]}
 	case x < 70:
 		return op{Kind: "renew", N: 1 + r.Intn(nsess)}
 	case x < 86:
@@ -935,6 +985,9 @@ func gen(c *core.Ctx) error {
 		{{Kind: "raw", Key: "empty", Pol: "auth"}, R(1, "idonly", true)},
 		{{Kind: "raw", Key: "blowfish32", Pol: "auth"}, R(1, "idonly", true), R(1, "rightkey", true)},
 		{{Kind: "raw", Key: "aes16", Pol: "auth"}, R(1, "idonly", true)},
+		{{Kind: "raw", Key: "noproto32", Pol: "auth"}, {Kind: "resume", N: 1, Req: "idonly", Want: true, Opt: true, Cmd: 421}, {Kind: "resume", N: 1, Req: "idonly", Opt: true, Cmd: 421}, R(1, "idonly", true), {Kind: "resume", N: 1, Req: "rightkey", Want: true, Opt: true, Cmd: 421}},
+		{{Kind: "est", Enc: true, Auth: true}, R(1, "legit", true), {Kind: "resume", N: 1, Req: "legit", Want: true, Opt: true, Cmd: 60007}, R(1, "idonly", true), {Kind: "tick", Dt: 500}, R(1, "legit", true)},
+		{{Kind: "est", Enc: false, Auth: true}, R(1, "legit", true), {Kind: "resume", N: 1, Req: "idonly", Want: true, Opt: true, Cmd: 421}},
 		{{Kind: "raw", Key: "aesgcm32", Pol: "auth"}, R(1, "rightkey", true), R(1, "idonly", true), R(1, "rightkey", false), {Kind: "resume", N: 1, Req: "rightkey", Want: true, Other: true, Cmd: 60007}},
 		{{Kind: "raw", Key: "aes32", Pol: "none"}, R(1, "rightkey", true), R(1, "unknown", true), R(1, "unknown", false), R(1, "onechar", true), R(1, "onechar", false)},
 		{{Kind: "est", Enc: true}, {Kind: "tick", Dt: 1500}, R(1, "legit", true), {Kind: "tick", Dt: 500}, {Kind: "tick", Dt: 500}, R(1, "legit", true), R(1, "idonly", true)},
@@ -972,11 +1025,12 @@ func gen(c *core.Ctx) error {
 	}
 	for _, k := range []kind{
 		{op{Kind: "est", Enc: true}, "legit"},
+		{op{Kind: "est", Enc: true, Auth: true}, "legit"},
 		{op{Kind: "est", Enc: false}, "legit"},
 		{op{Kind: "raw", Key: "aes32", Pol: "auth"}, "rightkey"},
 		{op{Kind: "raw", Key: "nil", Pol: "auth"}, "wrongkey"},
 	} {
-		alpha := []op{R(1, "idonly", true), R(1, k.holder, true), {Kind: "renew", N: 1}, {Kind: "tick", Dt: 1500}, {Kind: "tick", Dt: 3000}, {Kind: "inval", N: 1}, {Kind: "sweep"}}
+		alpha := []op{{Kind: "resume", N: 1, Req: "idonly", Want: true, Opt: true, Cmd: 421}, R(1, k.holder, true), {Kind: "renew", N: 1}, {Kind: "tick", Dt: 1500}, {Kind: "tick", Dt: 3000}, {Kind: "inval", N: 1}, {Kind: "sweep"}}
 		var rec func(prefix []op, depth int)
 		rec = func(prefix []op, depth int) {
 			if len(prefix) > 1 {
